@@ -348,6 +348,17 @@ def run(rep, ctx):
     lg = [c for c in GS.walk() if c["k"] == "CallExpr" and c.get("callee") == "mp::Lget"]
     lg = sorted(lg, key=lambda c: c["i"])
     got = [render(call_args(c)[1]).replace("&", "").split(".")[-1] for c in lg]
+    if len(lg) == 1 and strip(call_args(lg[0])[1])["k"] == "DeclRefExpr":
+        # table-driven: one Lget in a range-for over a local array of field pointers, read in the array's order
+        lp_ = GS.enclosing(lg[0], ("CXXForRangeStmt",))
+        rng_ = [v for v in walk(lp_) if v["k"] == "VarDecl" and (v.get("name") or "").startswith("__range") and kids(v)] if lp_ is not None else []
+        arr_ = strip(kids(rng_[0])[0]) if rng_ else None
+        avd_ = [v for v in GS.walk() if v["k"] == "VarDecl" and arr_ is not None and v.get("declId") == arr_.get("declId") and kids(v)]
+        il_ = strip(kids(avd_[0])[0]) if avd_ else None
+        body_ = [x for x in lp_.get("c", []) if x is not None][-1] if lp_ is not None else None
+        inner_ = {x["i"] for x in walk(body_)} if body_ is not None else set()
+        if il_ is not None and il_["k"] == "InitListExpr" and not [c_ for c_ in GS.cfg.facts_at(lg[0]) if c_[0] in inner_]:
+            got = [render(x).replace("&", "").split(".")[-1] for x in kids(il_)]
     t2.check(got == ["kind", "n", "namelen", "tablen", "tablines"], "suffix-header-read", short_loc(lg[0].get("l")) if lg else "",
              "parsed in the order kind, n, namelen, tablen, tablines", str(got))
     # the two suffix readers (int / double), built by gsufread itself or by a delivery helper it calls
